@@ -292,6 +292,8 @@ fn main() {
   let thorough = args.tier == "thorough";
   let ids = term_ids();
   let mut cases: Vec<String> = Vec::new();
+  let mut ccases: Vec<String> = Vec::new();
+  let mut cmeta: Vec<Value> = Vec::new();
   let mut meta: Vec<Value> = Vec::new();
   let mut dist: BTreeMap<String, u64> = BTreeMap::new();
   let mut agg_stats = AggStats::default();
@@ -383,6 +385,87 @@ fn main() {
       }
       let res = reader.search(&request(req)).expect("search");
       let resp = serde_json::to_value(&res.aggregations).unwrap();
+      // ---- composite aggregation over the same layout (C12/Composite.v)
+      {
+        let mut kw_all: Vec<&str> = TAGS.iter().copied().chain(CATS.iter().copied()).collect();
+        kw_all.sort();
+        kw_all.dedup();
+        let rank = |s: &str| kw_all.iter().position(|x| *x == s).unwrap() as i64;
+        let mut cr = Rng::new(args.seed ^ (wi as u64 * 7919 + 13));
+        let nsrc = 1 + cr.below(2) as usize;
+        let mut srcs_json = Vec::new();
+        let mut srcs_coq = Vec::new();
+        let mut names = Vec::new();
+        for k in 0..nsrc {
+          let name = format!("s{k}");
+          match cr.below(3) {
+            0 => {
+              srcs_json.push(json!({"type":"terms","name":name,"field":"tag"}));
+              srcs_coq.push("Composite.STerms 0".to_string());
+            }
+            1 => {
+              srcs_json.push(json!({"type":"terms","name":name,"field":"cats"}));
+              srcs_coq.push("Composite.STerms 1".to_string());
+            }
+            _ => {
+              let halves = *cr.pick(&[2i64, 5, 8][..]); // intervals 1.0, 2.5, 4.0
+              srcs_json.push(json!({"type":"histogram","name":name,"field":"price","interval": halves as f64 / 2.0}));
+              srcs_coq.push(format!("Composite.SHist 2 {halves}%Z"));
+            }
+          }
+          names.push(name);
+        }
+        let size = if cr.chance(1, 2) { 1 + cr.below(6) as usize } else { 500 };
+        let mut creq = json!({"query": {"type":"match_all"}, "limit": 1, "return_stored": false,
+          "aggs": {"c": {"type":"composite","sources": srcs_json, "size": size}}});
+        if let Some(t) = root_tag {
+          creq["filter"] = json!({"KeywordEq": {"field": "tag", "value": t}});
+        }
+        let cres = reader.search(&request(creq.clone())).expect("composite search");
+        let cj = serde_json::to_value(&cres.aggregations).unwrap();
+        let zl = |v: Vec<i64>| coq::list(&v.iter().map(|x| coq::z(*x)).collect::<Vec<_>>());
+        let obs: Vec<String> = cj["c"]["buckets"]
+          .as_array()
+          .map(|bs| {
+            bs.iter()
+              .map(|b| {
+                let key: Vec<i64> = names
+                  .iter()
+                  .map(|n| match &b["key"][n] {
+                    Value::String(s) => rank(s),
+                    other => (other.as_f64().unwrap_or(f64::NAN) * 2.0).round() as i64,
+                  })
+                  .collect();
+                format!("({}, {}%N)", zl(key), b["doc_count"].as_u64().unwrap_or(0))
+              })
+              .collect()
+          })
+          .unwrap_or_default();
+        let segs: Vec<String> = batches
+          .iter()
+          .map(|b| {
+            let ds: Vec<String> = b
+              .iter()
+              .filter(|(i, old)| !*old && !deleted.contains(i) && matched(&docs[*i]))
+              .map(|(i, _)| {
+                let d = &docs[*i];
+                let tag: Vec<i64> = d.tag.iter().map(|t| rank(t)).collect();
+                let cats: Vec<i64> = d.cats.iter().map(|t| rank(t)).collect();
+                let price: Vec<i64> = d.price.iter().map(|p| (p * 2.0).round() as i64).collect();
+                coq::list(&[zl(tag), zl(cats), zl(price)])
+              })
+              .collect();
+            coq::list(&ds)
+          })
+          .collect();
+        ccases.push(format!(
+          "{{| Composite.cc_srcs := {}; Composite.cc_size := {}%nat; Composite.cc_segs := {}; Composite.cc_obs := {} |}}",
+          coq::list(&srcs_coq), size, coq::list(&segs), coq::list(&obs)
+        ));
+        cmeta.push(json!({"world": wi, "layout": lname, "composite_request": creq["aggs"]["c"], "buckets": cj["c"]["buckets"],
+          "nt": obs.len() >= 2 && batches.len() >= 2}));
+        *dist.entry("composite_cases".into()).or_insert(0) += 1;
+      }
       // what the model sees: the matched live documents of every segment
       let mut nmatched = 0usize;
       let seg_lits: Vec<String> = batches
@@ -432,7 +515,20 @@ fn main() {
     }
   }
   std::fs::remove_file(&progress).ok();
-  let files = write_cases(&args.out, "From SL Require Import C12.Model.\nOpen Scope Z_scope.", "case", "check_case", &cases, 25);
+  let mut files = write_cases(&args.out, "From SL Require Import C12.Model.\nOpen Scope Z_scope.", "case", "check_case", &cases, 25);
+  // composite cases: their own check function, indices continue after the regular cases
+  let base = cases.len();
+  for (k, chunk) in ccases.chunks(40).enumerate() {
+    let name = format!("ccases_{k}.v");
+    let mut t = String::from("From Coq Require Import List NArith ZArith Bool.\nImport ListNotations.\nFrom SL Require Import Base.Tie.\nFrom SL Require C12.Composite.\nOpen Scope Z_scope.\n");
+    t.push_str("Definition cases : list Composite.ccase := [\n");
+    t.push_str(&chunk.join(";\n"));
+    t.push_str("\n].\n");
+    t.push_str(&format!("Open Scope N_scope.\nEval vm_compute in (report_from Composite.check_composite {} cases).\n", base + k * 40));
+    std::fs::write(args.out.join(&name), t).expect("write composite cases");
+    files.push(name);
+  }
+  meta.extend(cmeta.into_iter());
   let nt = meta.iter().filter(|m| m["nt"] == json!(true)).count();
   write_json(
     &args.out,
